@@ -428,6 +428,10 @@ func listOverlap(_ *Ctx, params []Value) (Value, error) {
 	case []string:
 		B, ok := params[1].([]string)
 		if !ok {
+			// the empty list is parsed to a string list
+			if _, isInts := params[1].([]int64); isInts && len(A) == 0 {
+				return false, nil
+			}
 			return nil, ParamTypeError(op, typeStrList, params[1])
 		}
 		if len(A)+len(B) < 100 {
